@@ -592,7 +592,7 @@ impl Ev {
     }
     pub fn sample(&mut self, v: Value) {
         if self.samples.len() < 3 {
-            self.samples.push(v);
+            self.samples.push(shorten(v));
         }
     }
     pub fn state(&mut self, h: u64) {
@@ -625,6 +625,27 @@ impl Ev {
         for (k, v) in o.extra {
             self.extra.insert(k, v);
         }
+    }
+}
+
+/// evidence files stay small: a sampled history is cut to its first 40 entries (marathons have 200,000), long
+/// strings to 600 characters
+pub fn shorten(v: Value) -> Value {
+    match v {
+        Value::Array(a) => {
+            let n = a.len();
+            let mut out: Vec<Value> = a.into_iter().take(40).map(shorten).collect();
+            if n > 40 {
+                out.push(Value::String(format!("... ({} more entries)", n - 40)));
+            }
+            Value::Array(out)
+        }
+        Value::Object(m) => Value::Object(m.into_iter().map(|(k, v)| (k, shorten(v))).collect()),
+        Value::String(s) if s.len() > 600 => {
+            let cut: String = s.chars().take(600).collect();
+            Value::String(format!("{cut}... ({} characters)", s.len()))
+        }
+        other => other,
     }
 }
 
@@ -829,7 +850,7 @@ pub fn evidence_json(
     cov.insert("evaluations".into(), json!(ev.evaluations));
     cov.insert("distinct_nontrivial".into(), json!(ev.distinct.len()));
     cov.insert("rule".into(), json!(rule));
-    cov.insert("samples".into(), json!(ev.samples));
+    cov.insert("samples".into(), shorten(json!(ev.samples)));
     cov.insert("events".into(), json!(ev.events));
     if !ev.states.is_empty() {
         cov.insert("distinct_model_states".into(), json!(ev.states.len()));
